@@ -28,11 +28,14 @@ def open_for(prop):
     return [f for f in load() if f["property"] == prop and f.get("status") == "open"]
 
 
-def _region_fn(expr):
+def _region_fn(expr, consts=None):
     code = compile(expr, "<finding-region>", "eval")
+    from vlib.sym import ITE, OR
 
     def region(**kw):
-        return eval(code, {"AND": AND, "NOT": NOT}, dict(kw))
+        env = dict(consts or {})
+        env.update(kw)
+        return eval(code, {"AND": AND, "NOT": NOT, "OR": OR, "ITE": ITE}, env)
 
     return region
 
@@ -53,12 +56,11 @@ def apply_exclusions(prop, obls):
         if not f.get("region"):
             continue
         rx = re.compile(f["obligations"])
-        reg = _region_fn(f["region"])
         for name, o in obls.items():
             if rx.fullmatch(name) and o.kind == "smt":
                 o.excluded = getattr(o, "excluded", []) + [f["id"]]
             elif rx.fullmatch(name):
-                o.pre = _wrap(o.pre, reg)
+                o.pre = _wrap(o.pre, _region_fn(f["region"], o.consts))
                 o.excluded = getattr(o, "excluded", []) + [f["id"]]
 
 
